@@ -468,6 +468,35 @@ def conc_jobs(ctx, nprocs, per_proc, native=0, variant=None, first=0, tag="c"):
     return jobs
 
 
+def enum_jobs(ctx, scen_first, nscen, depth, nshards, max2=0, tag="e"):
+    """Systematic enumeration: every schedule of a tiny scenario with <= depth deviations from the default
+    non-preemptive schedule (vsched.h SS_ENUM); first-level deviations sharded over nshards processes."""
+    jobs = []
+    for sc in range(scen_first, scen_first + nscen):
+        for k in range(nshards):
+            d = os.path.join(ctx.scratch, "enum-%s-%d-%d" % (tag, sc, k))
+            jobs.append(hjob("concmon", "rel", ["--seed", ctx.seed, "--enum-scen", sc, "--enum-depth", depth, "--shard", k,
+                                                "--nshards", nshards, "--enum-max2", max2, "--dir", d],
+                             "%s/enum%d/%d" % (tag, sc, k), timeout=3000))
+    return jobs
+
+
+def enum_extras(agg):
+    return dict(
+        scenarios=agg.n("enum_scenarios"),
+        one_deviation_schedules_total=agg.n("enum_depth1_total"), one_deviation_schedules_run=agg.n("enum_depth1_run"),
+        two_deviation_schedules_total=agg.n("enum_depth2_total"), two_deviation_schedules_run=agg.n("enum_depth2_run"),
+        complete_for_one_deviation=(agg.n("enum_depth1_total") > 0 and agg.n("enum_depth1_total") == agg.n("enum_depth1_run")),
+        complete_for_two_deviations=(agg.n("enum_depth2_total") > 0 and agg.n("enum_depth2_total") == agg.n("enum_depth2_run")),
+        scheduler_steps_of_the_default_schedules=agg.n("enum_baseline_steps"),
+        rule="tiny scenarios (2-3 writers x 2 batches on 2 own keys + shared keys, 1 reader with get/snapshot/iterator, class 1 "
+             "with a memtable flush, class 2 with sync/non-sync group commit); default schedule = non-preemptive, lowest "
+             "thread id first; a schedule = default + up to two deviations (at a decision point with k runnable threads, any "
+             "of the k-1 others runs instead); decision points = every mutex/condvar/thread call, every libc I/O call, the "
+             "hooks inside batch insertion and between WAL append and sequence publication; each scenario is run twice "
+             "first and must reproduce its switch signature (otherwise the run is inconclusive)")
+
+
 def conc_extras(agg):
     variants = ["mixed", "group-commit", "buffer-stall", "l0-stop", "two-manual-compactions", "backup", "bg-error"]
     return dict(
@@ -489,7 +518,8 @@ def conc_extras(agg):
         threads_blocked_and_later_woken=agg.n("blocked_and_woken"),
         distinct_wait_wake_pairs=agg.d("wait_wake_pairs"),
         spurious_wakeups_injected=agg.n("spurious_wakeups_injected"), mutex_blocks=agg.n("mutex_blocks"),
-        watchdog_expired=agg.n("watchdog_expired"))
+        watchdog_expired=agg.n("watchdog_expired"),
+        systematic_enumeration=enum_extras(agg))
 
 
 @register("C08")
@@ -499,10 +529,12 @@ def c08(ctx):
         return do_replay(ctx)
     if ctx.quick:
         jobs = conc_jobs(ctx, 16, 100, native=0, variant=[0, 0, 1, 0, 2, 0, 4, 5], tag="c08") + \
-            conc_jobs(ctx, 4, 25, native=1, variant=[0, 1], first=100000, tag="c08n")
+            conc_jobs(ctx, 4, 25, native=1, variant=[0, 1], first=100000, tag="c08n") + \
+            enum_jobs(ctx, 0, 6, 1, 1, tag="c08") + enum_jobs(ctx, 6, 3, 2, 8, tag="c08")
     else:
         jobs = conc_jobs(ctx, 64, 600, native=0, variant=[0, 0, 1, 0, 2, 3, 4, 5], tag="c08") + \
-            conc_jobs(ctx, 16, 150, native=1, variant=[0, 1, 2], first=1000000, tag="c08n")
+            conc_jobs(ctx, 16, 150, native=1, variant=[0, 1, 2], first=1000000, tag="c08n") + \
+            enum_jobs(ctx, 0, 48, 2, 16, tag="c08")
     agg = Agg().add(runner.run_jobs(jobs))
     return runner.finish(
         "C08", "exploration", ctx.tier, ctx.seed, ctx.t0, agg,
@@ -515,7 +547,8 @@ def c08(ctx):
         floors=dict(schedules=(agg.n("schedules"), 200), overlapping_reads=(agg.n("reads_overlapping_a_write_of_the_key"), 1000),
                     merged_groups=(agg.n("merged_groups_estimate"), 50), views=(agg.n("views_overlapping_a_write"), 200),
                     flushes=(agg.n("memtable_flushes"), 100), nontrivial=(agg.n("nontrivial_histories"), 50)),
-        assumptions=["schedules are sampled (random/PCT), not enumerated; the serialising scheduler runs under sequential "
+        assumptions=["schedules of the larger scenarios are sampled (random/PCT); tiny scenarios are enumerated completely up "
+                     "to one deviation (two in the sharded part) from the default schedule; the serialising scheduler runs under sequential "
                      "consistency (memory-order defects are C10's)", "timestamps = scheduler steps (logical clock)"])
 
 
@@ -525,9 +558,11 @@ def c09(ctx):
     if ctx.replay:
         return do_replay(ctx)
     if ctx.quick:
-        jobs = conc_jobs(ctx, 16, 100, native=0, variant=[2, 3, 4, 5, 6, 1, 0, 2], first=50000, tag="c09")
+        jobs = conc_jobs(ctx, 16, 100, native=0, variant=[2, 3, 4, 5, 6, 1, 0, 2], first=50000, tag="c09") + \
+            enum_jobs(ctx, 100, 6, 1, 1, tag="c09") + enum_jobs(ctx, 106, 3, 2, 8, tag="c09")
     else:
-        jobs = conc_jobs(ctx, 64, 800, native=0, variant=[2, 3, 4, 5, 6, 1, 0, 2], first=50000, tag="c09")
+        jobs = conc_jobs(ctx, 64, 800, native=0, variant=[2, 3, 4, 5, 6, 1, 0, 2], first=50000, tag="c09") + \
+            enum_jobs(ctx, 100, 48, 2, 16, tag="c09")
     agg = Agg().add(runner.run_jobs(jobs))
     return runner.finish(
         "C09", "exploration", ctx.tier, ctx.seed, ctx.t0, agg,
@@ -551,11 +586,13 @@ def c04(ctx):
         return do_replay(ctx)
     if ctx.quick:
         jobs = crash_jobs(ctx, "c04", 8, 30, 0, 1, 0) + \
-            conc_jobs(ctx, 8, 50, native=0, variant=[0, 1], first=200000, tag="c04")
+            conc_jobs(ctx, 8, 50, native=0, variant=[0, 1], first=200000, tag="c04") + \
+            enum_jobs(ctx, 200, 6, 1, 1, tag="c04")
     else:
         jobs = crash_jobs(ctx, "c04", 64, 150, 0, 2, 16) + \
             conc_jobs(ctx, 32, 600, native=0, variant=[0, 1], first=200000, tag="c04") + \
-            conc_jobs(ctx, 8, 150, native=1, variant=[0, 1], first=2000000, tag="c04n")
+            conc_jobs(ctx, 8, 150, native=1, variant=[0, 1], first=2000000, tag="c04n") + \
+            enum_jobs(ctx, 200, 24, 2, 16, tag="c04")
     agg = Agg().add(runner.run_jobs(jobs))
     extras = crash_extras(agg)
     extras.update(conc_extras(agg))
